@@ -354,7 +354,10 @@ func xyzToFaceSiTi(p Point) (face int, si, ti uint32, level int) {
 	// not idempotent. On the other hand, the center is computed exactly the same
 	// way p was originally computed (if it is indeed the center of a Cell);
 	// the comparison can be exact.
-	if p.Vector == faceSiTiToXYZ(face, si, ti).Normalize() {
+	if c := faceSiTiToXYZ(face, si, ti).Normalize(); p.Vector == c &&
+		math.Signbit(p.X) == math.Signbit(c.X) && math.Signbit(p.Y) == math.Signbit(c.Y) && math.Signbit(p.Z) == math.Signbit(c.Z) {
+		// (== treats -0 and +0 as equal, but they are different coordinates:
+		// a point with a zero of the other sign is not the cell center.)
 		return face, si, ti, level
 	}
 
